@@ -179,7 +179,7 @@ func runC12(r *rt.Run) {
 	r.Bounds["transforms_both"] = names
 	r.Bounds["move_sources"] = "Move(3,-5) from an r-tree-indexed source, Move(2^20-8,-2^19) from a quadtree-indexed source (MinPoints 1), Move(-1.5,0.25) from an index-free source"
 	r.Bounds["reencodings_one"] = "ring: every other start vertex, reversed, unclosed, holes reversed / restarted; line: reversed"
-	r.Rule = "every pair over exhaustively built pools (3x3 symmetric lattice) x every listed transform of both operands and every re-encoding of either operand; 4 answers per pair (contains both ways, intersects both ways) compared with the untransformed answers; non-trivial = bounding boxes meet"
+	r.Rule = "every pair over exhaustively built pools (3x3 symmetric lattice; slanted-triangle contact pairs; 14..17-position discs with and without closing vertex x outers with notches, slots, holes and frames) x every listed transform of both operands and every re-encoding of either operand; 4 answers per pair (contains both ways, intersects both ways) compared with the untransformed answers; non-trivial = bounding boxes meet"
 	r.Assume = []string{"valid operands on dyadic coordinates, magnitude <= 2^20", "trigger is oracle-free; verif/mc/exact (invariant by construction) only attributes a change to the wrong side"}
 
 	conv := func(ps []*shp) []*c12shape {
@@ -287,6 +287,12 @@ func runC12(r *rt.Run) {
 	r.ParFor(len(sp), func(i int, w *rt.Worker) {
 		pair(mkC12(sp[i][0]), mkC12(sp[i][1]), w)
 	})
+	// inner shapes on either side of the 16-position shortcut (with / without
+	// closing vertex) x outers with notches, slots, holes and frames
+	bo, bi := poolBigInner(nil)
+	r.Bounds["outers_x_16_position_inners"] = []int{len(bo), len(bi)}
+	cbo, cbi := conv(bo), conv(bi)
+	run(cbo, cbi, false)
 	r.Sample(map[string]any{"base": pairCase("contains", polys[5].E, lines[40].E, ident, ""), "transform": c12Both[9].name})
 	r.Sample(map[string]any{"base": pairCase("contains", polys[5].E, lines[40].E, ident, ""), "reencoding_of_A": cp[5].enc[1].name})
 }
